@@ -37,12 +37,12 @@ type Finding struct {
 
 // Result is what a case returns to the parent.
 type Result struct {
-	Findings   []Finding      `json:"findings,omitempty"`
-	Counts     map[string]int `json:"counts,omitempty"`     // added to the run's measured counters
-	Nontrivial []string       `json:"nontrivial,omitempty"` // keys of distinct non-trivial cases
-	Sets       map[string][]string `json:"sets,omitempty"`  // named sets of observed values (coverage)
-	Sample     any            `json:"sample,omitempty"`
-	Inconcl    string         `json:"inconclusive,omitempty"` // the case could not be decided (watchdog inside the case)
+	Findings   []Finding           `json:"findings,omitempty"`
+	Counts     map[string]int      `json:"counts,omitempty"`     // added to the run's measured counters
+	Nontrivial []string            `json:"nontrivial,omitempty"` // keys of distinct non-trivial cases
+	Sets       map[string][]string `json:"sets,omitempty"`       // named sets of observed values (coverage)
+	Sample     any                 `json:"sample,omitempty"`
+	Inconcl    string              `json:"inconclusive,omitempty"` // the case could not be decided (watchdog inside the case)
 }
 
 // Count adds n to a counter of the result.
@@ -88,6 +88,9 @@ type Config struct {
 	ChildBudget time.Duration // watchdog per child (default 5 min)
 	SoloBudget  time.Duration // watchdog for a suspect re-run alone (default 60 s)
 	Env         []string      // extra environment for children
+	// FatalNotViolation: a crash/hang attributed to a case is counted and sampled in the evidence
+	// but not reported as a violation (for properties whose statement is not about survival).
+	FatalNotViolation bool
 }
 
 const envDir = "VERIF_BATCH_DIR"
